@@ -1136,6 +1136,149 @@ theorem registry_same_name_same_collection (r : Registry) (name : Bytes) (betwee
   have h := key between _ _ (registry_add_binds r name)
   exact ⟨by rw [registry_add_bound _ _ _ h], h⟩
 
+/-! ### handlers that complete through the repository's helper `CheckInvokeCBFunc`
+
+Every handler of the repository reports through `apientry.CheckInvokeCBFunc(cb, e, result)` (nil test, then the
+call).  `CallMethod`'s `completed` logic (fix of D23) leaves `completed == false` when the completion function panics
+on the handler's result and RELIES on that panic reaching `SafeCall`'s recover: so the helper must let it through. -/
+
+/-- `SafeCall` around a request-shaped handler's frame (after `run` was emitted) when the body completes through the
+helper `inv`, with the two closures `CallMethod` builds around `completed` -/
+def safeCallVia (inv : CbF → Bool → Bool → Bool → Bool → Exec × Bool) (picky : Bool) (b : Beh) : Exec :=
+  let y := playBodyVia inv (.handlerCB picky) b.bad b.comps false
+  (y.1.andThen (if b.panics then .panic else .ret)).recoverWith (checkInvokeF (.panicCB picky) y.2)
+
+/-- the helper as the code has it is transparent, for every function value, argument and state: it does what calling
+the function does — in particular a panic of the function comes back out of it and `completed` is what the call left -/
+theorem helper_is_transparent (f : CbF) (byH isErr bad d : Bool) :
+    checkInvokeAny f byH isErr bad d = f.call byH isErr bad d := checkInvokeAny_eq_call f byH isErr bad d
+
+/-- a handler that completes through the helper has the SAME execution as one that calls the function it was handed
+(every script, every function value): all `exec_…` theorems are about both kinds of handler -/
+theorem handler_through_helper_same_execution (f : CbF) (bad : Bool) (cs : List Bool) (d : Bool) :
+    playBodyVia checkInvokeAny f bad cs d = playBody f bad cs d := playBodyVia_checkInvokeAny f bad cs d
+
+/-- … and what `CallMethod` → `SafeCall` do with a request-shaped handler is: the handler is entered, then
+`safeCallVia` with the helper -/
+theorem call_method_body_through_helper (h : Handler) (ctx : CtxArg) (arg : ArgV) (picky : Bool) (b : Beh)
+    (ht : typesOK h ctx arg true = true) :
+    safeCallX h ctx arg true (.handlerCB picky) (.panicCB picky) b false
+      = (Exec.emit (.run h (ctx != .nil) arg)).andThen (safeCallVia checkInvokeAny picky b) := by
+  simp only [safeCallX, reflectCall, ht, if_true, handlerBody, safeCallVia, playBodyVia_checkInvokeAny]
+  simp only [Exec.andThen, Exec.recoverWith, Exec.emit]
+  by_cases hp : ((playBody (.handlerCB picky) b.bad b.comps false).1.panicking = true) <;> cases hb : b.panics <;>
+    simp [hp, Exec.panic, Exec.ret]
+
+/-- through the helper as well: a completion function that chokes on the handler's value still gets the error, once -/
+theorem helper_choking_callback_still_gets_error (panics : Bool) (rest : List Bool) :
+    safeCallVia checkInvokeAny true ⟨true :: rest, panics, true⟩ = ⟨[.cb false true], false⟩ := by
+  simp [safeCallVia, playBodyVia, checkInvokeAny, CbF.isNil, CbF.call, invokeCb, Exec.panic, Exec.andThen, Exec.recoverWith,
+    checkInvokeF, Exec.emit]
+
+/-- **why the helper must not recover** (the variant with `defer recover()` in front of the call): the completion
+function choked, `completed` stayed false, the panic ended inside the helper, the handler returned normally,
+`SafeCall` saw nothing — the call is completed ZERO times … -/
+theorem recovering_helper_loses_the_completion (rest : List Bool) (hrest : rest.all id = true) :
+    safeCallVia checkInvokeAnyRecovering true ⟨true :: rest, false, true⟩ = ⟨[], false⟩ := by
+  have hbody : ∀ (l : List Bool), l.all id = true →
+      playBodyVia checkInvokeAnyRecovering (.handlerCB true) true l false = (⟨[], false⟩, false) := by
+    intro l
+    induction l with
+    | nil => intro _; rfl
+    | cons c r ih =>
+      intro hl
+      simp only [List.all_cons, id, Bool.and_eq_true] at hl
+      obtain ⟨rfl, hr⟩ := hl
+      simp [playBodyVia, checkInvokeAnyRecovering, checkInvokeAny, CbF.isNil, CbF.call, invokeCb, Exec.panic, Exec.recoverWith,
+        Exec.ret, Exec.andThen, ih hr]
+  have := hbody (true :: rest) (by simp [hrest])
+  simp [safeCallVia, this, Exec.andThen, Exec.recoverWith, Exec.ret]
+
+/-- … and, for every script and every completion function, a handler that does not panic itself is never answered
+by the framework when the helper recovers (the body cannot panic any more) -/
+theorem recovering_helper_never_reaches_recover (picky : Bool) (b : Beh) (hb : b.panics = false) :
+    ∀ e ∈ (safeCallVia checkInvokeAnyRecovering picky b).evs, e ≠ .cb false true := by
+  intro e he
+  have hp := playBodyVia_recovering_panicking (.handlerCB picky) b.bad b.comps false
+  simp only [safeCallVia, hb, Exec.recoverWith_evs, Exec.andThen_panicking, hp, Exec.ret_panicking, Bool.or_self,
+    Bool.false_eq_true, if_false, Exec.andThen_evs, Exec.ret_evs, List.append_nil] at he
+  obtain ⟨isErr, rfl⟩ := playBodyVia_recovering_evs_byHandler _ _ _ _ e he
+  simp
+
+/-- non-vacuity / the contrast on one input: value the picky function chokes on, completed through the helper -/
+example : safeCallVia checkInvokeAny true ⟨[true], false, true⟩ = ⟨[.cb false true], false⟩ ∧
+    safeCallVia checkInvokeAnyRecovering true ⟨[true], false, true⟩ = ⟨[], false⟩ ∧
+    safeCallVia checkInvokeAny false ⟨[true], false, true⟩ = safeCallVia checkInvokeAnyRecovering false ⟨[true], false, true⟩ := by
+  decide
+
+/-! ### the fall-through of `handleRequest` deserialises the body first (`panic(err)`) -/
+
+/-- a request the dispatcher processes is not touched by the state of the body -/
+theorem handle_request_routed_ignores_body (bodyOK : Bool) (cols : List Collection) (dec : DecoderX) (rc route data : Bytes)
+    (isNotify hasSender : Bool) (legacy : Legacy) (b : Beh) (c : Collection) (hr : route ≠ [])
+    (ht : dispatchTarget cols route = some c) :
+    handleRequestXB bodyOK (some cols) dec rc route data isNotify hasSender legacy b
+      = handleRequestX (some cols) dec rc route data isNotify hasSender legacy b := by
+  cases bodyOK <;> simp [handleRequestXB, handleRequestX, hr, dispatchX, ht]
+
+/-- **unknown route AND a body the receiving process cannot deserialise**: the requester is answered "no method"
+exactly once — and then `handleRequest` PANICS (for every legacy receiver, which is never consulted): at the service
+level "nothing escapes as a panic" is false for this input.  Observed on the real code on every run, judged
+'outside-statement' (the legacy path's `panic(err)`), a candidate finding -/
+theorem handle_request_unknown_route_bad_body_escapes (cols : List Collection) (dec : DecoderX) (rc route data : Bytes)
+    (legacy : Legacy) (b : Beh) (hr : route ≠ []) (h : ∀ c ∈ cols, hasMethod c route = false) :
+    handleRequestXB false (some cols) dec rc route data false true legacy b = (⟨[.cb false true], true⟩, false) := by
+  have ht : dispatchTarget cols route = none := by
+    unfold dispatchTarget
+    exact List.find?_eq_none.2 (fun c hc => by simp [h c hc])
+  simp [handleRequestXB, hr, dispatchX, ht, Exec.andThen, Exec.emit, Exec.panic]
+
+/-- no dispatcher, or no route: the request goes straight to the deserialisation and the panic -/
+theorem handle_request_unrouted_bad_body_escapes (disp : Option (List Collection)) (dec : DecoderX) (rc route data : Bytes)
+    (isNotify hasSender : Bool) (legacy : Legacy) (b : Beh) (h : disp = none ∨ route = []) :
+    handleRequestXB false disp dec rc route data isNotify hasSender legacy b = (.panic, false) := by
+  rcases h with h | h <;> simp [handleRequestXB, h]
+
+/-- non-vacuity: the demo collection, an unknown method, an answering legacy receiver -/
+example : handleRequestXB false (some [build true [eDemo]]) decId.lift [1] [69, 46, 88] [] false true .answers bOk
+    = (⟨[.cb false true], true⟩, false) ∧
+    handleRequestXB true (some [build true [eDemo]]) decId.lift [1] [69, 46, 88] [] false true .answers bOk
+    = (⟨[.cb false true, .cb true false], false⟩, true) := by decide
+
+/-! ### completions made after the call returned (no `SafeCall` above them) -/
+
+/-- a late completion the function can take goes through, once, and nothing panics -/
+theorem late_completion_completes_once (x : Exec) (h : Handler) (c : Bool) (a : ArgV) (picky bad v : Bool)
+    (hruns : x.runs = [(h, c, a)]) (hreq : h.isRequest = true) (hx : x.panicking = false)
+    (hok : (picky && v && bad) = false) :
+    x.thenLate (some picky) bad [v] = ⟨x.evs ++ [.cb true (!v)], false⟩ := by
+  simp only [Exec.thenLate, hruns, hreq, hx, Bool.not_false, Bool.and_self, if_true, playBody, CbF.call, invokeCb,
+    Bool.not_not]
+  simp [hok, Exec.andThen, hx, Exec.emit, Exec.ret]
+
+/-- **a late completion the function chokes on ESCAPES**: the panic is nobody's to recover, the completion function is
+never completed (neither by the handler nor by the framework) — for the dispatcher's closure: the requester is never
+answered and the goroutine that completed dies.  Observed on the real code on every run, judged 'outside-statement' -/
+theorem late_choking_completion_escapes (x : Exec) (h : Handler) (c : Bool) (a : ArgV) (rest : List Bool)
+    (hruns : x.runs = [(h, c, a)]) (hreq : h.isRequest = true) (hx : x.panicking = false) :
+    x.thenLate (some true) true (true :: rest) = ⟨x.evs, true⟩ := by
+  simp [Exec.thenLate, hruns, hreq, hx, playBody, CbF.call, invokeCb, Exec.andThen, Exec.panic]
+
+/-- nothing is played when the call itself completed with a framework error and no handler ran -/
+theorem late_nothing_without_handler (x : Exec) (cb : Cb) (bad : Bool) (late : List Bool) (hruns : x.runs = []) :
+    x.thenLate cb bad late = x := by
+  simp [Exec.thenLate, hruns]
+
+/-- non-vacuity, end to end: the demo request handler keeps the function and completes later with a value a picky
+completion function chokes on / a plain one takes -/
+example :
+    (callWithSerializeX (build true [eDemo]) (some decId.lift) [69, 46, 74] (.ty [1]) [7] (some true) ⟨[], false, true⟩).thenLate
+        (some true) true [true]
+      = ⟨[.run (mkHandler 1 mJoin) true (.val [2] [7])], true⟩ ∧
+    (callWithSerializeX (build true [eDemo]) (some decId.lift) [69, 46, 74] (.ty [1]) [7] (some false) ⟨[], false, true⟩).thenLate
+        (some false) true [true]
+      = ⟨[.run (mkHandler 1 mJoin) true (.val [2] [7]), .cb true false], false⟩ := by decide
+
 /-- the non-atomic variant (read-locked lookup, write-locked insert without a
 second lookup) LOSES a collection: two threads that both miss get different
 objects and the registry keeps only the second — why the structural fact matters -/
